@@ -1,6 +1,8 @@
 /* Unit entref_cc (CXX-FN): ReadEntityRef extracted from sdaiApplication_instance.cc */
 #define EXPDICT_H
 #define instmgr_h
+#define private public
+#define protected public
 #include <iostream>
 #include "cxx/verif_stream_model.h"
 #include "clstepcore/sdai.h"
@@ -14,6 +16,15 @@ static int g_find_calls, g_find_id; static void *g_find_result; static SDAI_Appl
 static MgrNodeBase *verif_FindFileId(InstMgrBase *im, int id) { g_find_calls++; g_find_id = id; g_find_mgr = im; return (MgrNodeBase *)g_find_result; }
 static SDAI_Application_instance *verif_GetSTEPentity(MgrNodeBase *mn) { (void)mn; return g_node_inst; }
 #include "entref_extract.inc"
+/* ---- ghosts for EntityValidLevel: what the dictionary says about the two types ---- */
+class STEPcomplex;
+static PrimitiveType g_ed_kind; static int g_isa, g_part_exists, g_iscomplex;
+PrimitiveType TypeDescriptor::NonRefType() const { return g_ed_kind; }
+const TypeDescriptor *EntityDescriptor::IsA(const TypeDescriptor *t) const { if (g_isa) return (TypeDescriptor *)t; return (TypeDescriptor *)0; }   /* (the front end drops the const of the declared return type) */
+const char *TypeDescriptor::Name(const char *) const { return "t"; }
+static STEPcomplex *verif_complex_sc(SDAI_Application_instance *se) { return (STEPcomplex *)se; }
+static int verif_EntityExists(STEPcomplex *, const char *) { return g_part_exists; }
+#include "evl_extract.inc"
 #include "src/clutils/errordesc.cc"
 #include "verif.h"
 extern "C" { int nondet_int(); }
@@ -52,4 +63,22 @@ extern "C" void h_ReadEntityRef()
         if (in_c == '#' || in_c == '@') __CPROVER_assert(err.severity() <= SEVERITY_WARNING, "C09 a '#' without a number raises an error");
         else __CPROVER_assert(in._m_consumed == 0, "C09 a character that does not start a reference is put back");
     }
+}
+
+/* C03: a reference is accepted exactly when the referenced instance is of the attribute's entity type or a descendant (or a complex
+ * instance that has that part); every other case leaves an error in the descriptor */
+extern "C" void h_EntityValidLevel()
+{
+    IN(int, in_isa); IN(int, in_complex); IN(int, in_part); IN(int, in_have_se); IN(int, in_have_ed); IN(int, in_edkind); IN(int, in_have_desc);
+    static const PrimitiveType kinds[] = { ENTITY_TYPE, INTEGER_TYPE, SELECT_TYPE, AGGREGATE_TYPE };
+    __CPROVER_assume(in_edkind >= 0 && in_edkind < 4);
+    g_ed_kind = kinds[in_edkind]; g_isa = in_isa; g_part_exists = in_part;
+    SDAI_Application_instance *se = in_have_se ? (SDAI_Application_instance *)malloc(sizeof(SDAI_Application_instance)) : 0;
+    EntityDescriptor *ed = in_have_ed ? (EntityDescriptor *)malloc(sizeof(EntityDescriptor)) : 0;
+    if (se) { se->eDesc = in_have_desc ? (EntityDescriptor *)malloc(sizeof(EntityDescriptor)) : 0; se->STEPfile_id = 5; se->_complex = in_complex != 0; }
+    ErrorDescriptor err;
+    Severity s = EntityValidLevel(se, ed, &err);
+    int ok = ed && g_ed_kind == ENTITY_TYPE && se && in_have_desc && (in_isa || (in_complex && in_part));
+    if (ok) __CPROVER_assert(s == SEVERITY_NULL && err.severity() == SEVERITY_NULL, "an instance of the required entity type, of a descendant, or a complex instance with that part, is accepted");
+    else __CPROVER_assert(s <= SEVERITY_WARNING && err.severity() <= SEVERITY_WARNING, "C03 a reference to an instance whose type is not the attribute's entity type (nor a descendant, nor a complex instance with that part) leaves an error");
 }
